@@ -744,6 +744,15 @@ func (t *T) header() string {
 	b.WriteString("   state, integer / and % are Go's truncated Z.quot / Z.rem, a run-time panic\n")
 	b.WriteString("   is the result [Panicked s].  Each `now…` parameter is one reading of the\n")
 	b.WriteString("   clock, in source order.\n\n")
+	for _, k := range sortedKeys(t.usedIntr) {
+		if t.cfg.Intrinsics[k].Kind == "wait" {
+			b.WriteString("   Blocking waits on the clock (intrinsic kind `wait`: the statements x.Sleep(d),\n")
+			b.WriteString("   <-x.After(d)) are KEPT: each updates the clock object x of the state through the\n")
+			b.WriteString("   function named below and takes one more reading `now…` — the instant the wait\n")
+			b.WriteString("   starts; what the wait means for later readings is that function's definition.\n\n")
+			break
+		}
+	}
 	b.WriteString("   Functions translated:\n")
 	for _, fc := range t.cfg.Functions {
 		fi := t.funcs[fc.Recv+"."+fc.Name]
